@@ -71,6 +71,16 @@ Theorem C16_skipped_not_evaluated : forall pe pn rows fuel bt pos cx log log' r,
 Proof. exact skipped_not_evaluated. Qed.
 Print Assumptions C16_skipped_not_evaluated.
 
+(* 3b. a single ROW whose include_if evaluates to "false": its other cell is never handed to the
+   template engine (so an unknown variable in it is not an error) and the row is excluded *)
+Theorem C16_excluded_row_not_evaluated : forall pe pn cx r log pi s,
+  parse_as_string_m pe pn (Some cx) (r_inc r) = Ok pi ->
+  to_text pn pi = Ok s ->
+  str_eqb (lower (strip s)) [102; 97; 108; 115; 101]%N = true ->
+  exists mv, inst_row_incl pe pn (Some cx) r log = (log_render (Some cx) (r_inc r) log, Ok (false, mv)).
+Proof. exact excluded_row_not_evaluated. Qed.
+Print Assumptions C16_excluded_row_not_evaluated.
+
 Theorem C16_skipped_policy_independent : forall pe pn pe' pn' rows fuel bt pos cx log,
   fst (parse_block pe pn rows fuel bt true pos cx log) = fst (parse_block pe' pn' rows fuel bt true pos cx log)
   /\ snd (parse_block pe pn rows fuel bt true pos cx log) = snd (parse_block pe' pn' rows fuel bt true pos cx log).
